@@ -41,7 +41,7 @@ class Contract:
             raise TypeError(f"unknown contract fields for {key}: {sorted(kw)}")
 
 
-TRACE_FNS = ("call_arg(", "called(", "call_result(", "called_before(", "last_call_is(", "ncalled(")
+TRACE_FNS = ("call_arg(", "called(", "call_result(", "called_before(", "last_call_is(", "ncalled(", "caught(", "last_result_truthy(")
 
 
 def _is_trace(text):
@@ -69,6 +69,7 @@ class Registry:
         self.inline = set()     # keys inlined at call sites
         self.inert = set()      # dotted call names dropped (no-ops)
         self.inert_methods = set()  # method names dropped whatever the receiver (pbar.update, ...)
+        self.identity_calls = set() # inert wrappers that return their first argument (progbar(it))
         self.impure_props = set()   # property names whose getters have effects (hoisted as calls)
         self.pure_ext = set()       # external callables modelled as uninterpreted *functions* of their arguments
         self.externals = {}     # dotted name -> model callable(engine, st, args, kwargs, node) -> outcomes / SV
